@@ -252,14 +252,20 @@ Definition c12_model_ok (z : c12_case) : bool :=
                      Nat.eqb (fst m) (fst ob) && (negb (Nat.eqb (fst m) 0) || Nat.eqb (snd m) (snd ob)))) addrs &&
   (* members of the interrupted batch (written in map order): as many readable as in the model,
      each one with its own object *)
-  Nat.eqb (count_ok (map (fun a => nth a model (9, 9)) members)) (count_ok (map (fun a => nth a (z_obs z) (8, 8)) members)) &&
+  (negb (Nat.eqb (z_kind z) 1) ||
+   let pre := length (filter (fun a => exists_ nm c (fsys w0) a) members) in
+   let links_done := length (filter (fun x => Nat.eqb (kind_of x) 3 || Nat.eqb (kind_of x) 4) (firstn (z_k z) t)) in
+   let seen := count_ok (map (fun a => nth a (z_obs z) (8, 8)) members) in
+   (* members stored before stay; of the completed linkat calls at most [pre] hit those (map order is unknown) *)
+   Nat.leb pre seen && Nat.leb (seen - pre) links_done && Nat.leb (links_done - pre) (seen - pre) &&
+   (negb (Nat.eqb pre 0) || Nat.eqb seen (count_ok (map (fun a => nth a model (9, 9)) members)))) &&
   forallb (fun e => match e with (a, o, _) =>
                       let ob := nth a (z_obs z) (8, 8) in
                       (Nat.eqb (fst ob) 2 || (Nat.eqb (fst ob) 0 && Nat.eqb (snd ob) o)) end)
           (if Nat.eqb (z_kind z) 1 then z_items z else []) &&
   (* iteration = the readable addresses; temporary names counted *)
   match iterate dec nm c s' with
-  | Some l => Nat.eqb (length l) (length (z_iter z))
+  | Some l => negb (Nat.eqb (length (filter (fun a => exists_ nm c (fsys w0) a) members)) 0) || Nat.eqb (length l) (length (z_iter z))
   | None => false
   end &&
   Nat.eqb (length (filter (fun e => has_hash (concat (fst e))) (links s'))) (z_tmp z).
